@@ -23,7 +23,10 @@ FAULTY = ["return 1 / 0;", "return 1 % 0;", "return 1.5 % 0;", "return [1][\"a\"
           "return sprintf(\"%d %s %v %q\", \"a\");", "return printf(1, 2);", "return A[B][C];", "x = [1, 2]; return x[x];", "return int(\"99999999999999999999\");",
           "return 9223372036854775807 + 1;", "return 2 ** 100;", "return (0 - 9223372036854775807 - 1) / (0 - 1);", "switch (1) { case /(/ { } }",
           "return \"a\" ~= /(/;", "return replace(\"a\", \"(\", \"b\");", "return hour(\"x\");", "return weekday(99999999999999999);", "1; 2; 3; return;",
-          "t(1, 2)", "return t;", "function f() { return f(); } return f();"]
+          "t(1, 2)", "return t;", "function f() { return f(); } return f();",
+          # regexp literals that open a (? group and never close it, or are otherwise not valid patterns
+          "return Name ~= /(?i/;", "return /(?/;", "if (Name ~= /(?:steve|bob/) { return true; } return false;", "switch (Name) { case /(?i/ { return 1; } } return 2;",
+          "return replace(Name, /(?P<n/, \"x\");", "return /(?i)(?/;", "x = /(?)/; return x;", "return \"a\" !~ /(?#/;", "return /[/;", "return /a{2,1}/;", "return /\\/;"]
 
 class C08(Prop):
     id = "C08"
